@@ -8,6 +8,7 @@ package stublog
 
 import (
 	"bytes"
+	"compress/gzip"
 	"encoding/base64"
 	"encoding/hex"
 	"encoding/json"
@@ -343,7 +344,41 @@ func (s *Server) serverlessTile(p string, size int) (int, []byte) {
 }
 
 // RoundTrip implements http.RoundTripper.
+// RoundTrip answers as a server (or a CDN in front of it) that compresses when
+// asked: net/http's own transport asks for gzip itself and then decompresses
+// transparently, which a stub RoundTripper stands in for by answering plainly;
+// but a caller that sets Accept-Encoding ITSELF gets the compressed bytes, as
+// it does from net/http (Transport.DisableCompression semantics).
 func (s *Server) RoundTrip(r *http.Request) (*http.Response, error) {
+	resp, err := s.roundTrip(r)
+	return CompressIfAsked(r, resp), err
+}
+
+// CompressIfAsked turns resp into what a compressing server answers when the
+// REQUEST ITSELF carries Accept-Encoding: gzip (see RoundTrip); otherwise resp
+// is returned unchanged.
+func CompressIfAsked(r *http.Request, resp *http.Response) *http.Response {
+	if resp == nil || resp.Body == nil || !strings.Contains(r.Header.Get("Accept-Encoding"), "gzip") {
+		return resp
+	}
+	plain, _ := io.ReadAll(resp.Body)
+	resp.Body.Close()
+	var zb bytes.Buffer
+	zw := gzip.NewWriter(&zb)
+	_, _ = zw.Write(plain)
+	_ = zw.Close()
+	if resp.Header == nil {
+		resp.Header = http.Header{}
+	}
+	resp.Header.Set("Content-Encoding", "gzip")
+	resp.Body = io.NopCloser(bytes.NewReader(zb.Bytes()))
+	if resp.ContentLength >= 0 {
+		resp.ContentLength = int64(zb.Len())
+	}
+	return resp
+}
+
+func (s *Server) roundTrip(r *http.Request) (*http.Response, error) {
 	// As net/http's transport: a request whose context has ended fails.
 	if err := r.Context().Err(); err != nil {
 		return nil, err
